@@ -772,6 +772,10 @@ def main(tier, replay=None):
     if replay:
         return do_replay(run, replay)
     proof_ok = run.proof_stage()
+    import translate_stage
+    tr_diag = translate_stage.translator_obligation_diag(run, parts=("screen",))
+    if tr_diag["status"] != "ok":
+        run.notes.append("translator obligation (screen/BPM): " + json.dumps(translate_stage.replay_fields_diag(tr_diag))[:600])
     if proof_ok:
         ok, log = common.coq_build("theories/Diag/ScreenCheck.vo")
         if not ok:
@@ -1046,6 +1050,9 @@ def main(tier, replay=None):
         else:
             rep = {"kind": "correspondence", "broken": "case file did not compile: " + corr_err[-600:]}
         run.violation(rep, no_input=True)
+    elif tr_diag["status"] != "ok":
+        # the source no longer translates to the proved model; none of this run's oracles found a failing input
+        run.violation(translate_stage.replay_fields_diag(tr_diag), no_input=True)
     elif not proof_ok:
         run.violation({"kind": "proof", "broken": run.proof_problem}, no_input=True)
     return run.finish("proof")
